@@ -7,7 +7,7 @@ use crate::explore::*;
 use serde_json::{Value, json};
 use std::panic::{AssertUnwindSafe, catch_unwind};
 
-const RULE: &str = "(a) every byte string over B16 (len<=n) and every F<=k input x {single write, every 1-cut, byte-wise} x 7 configurations (all handlers incl. on_end_tag, strict on/off, tiny memory limits, esi tags, meta-charset, Shift_JIS); (b) every selector string over an 18-token CSS alphabet (len<=m) through Selector::from_str and, when accepted, through a rewrite; (c) every Sigma-string (len<=3) through every setter; (d) scaled pathological shapes (deep nesting, stray end tags, huge tokens, thousands of attributes/selectors) at sizes n and 4n in a subprocess: CPU(4n) <= 9*CPU(n)+0.05s. Oracle: no panic (catch_unwind in a build with debug assertions and overflow checks), every call returns, subprocess exits normally within its time limit; non-trivial = distinct inputs on which at least one handler ran or an error was returned";
+const RULE: &str = "(a) every byte string over B16 (len<=n) and every F<=k input x {single write, every 1-cut, byte-wise} x 7 configurations (all handlers incl. on_end_tag, strict on/off, tiny memory limits, esi tags, meta-charset, Shift_JIS); (b) every selector string over an 18-token CSS alphabet (len<=m) through Selector::from_str and, when accepted, through a rewrite; (c) every Sigma-string (len<=3) through every setter; (e) long text runs (valid prefix around the 1 KiB decoder buffer + malformed / incomplete / split tails) x 4 encodings x text handlers; (d) scaled pathological shapes (deep nesting, stray end tags, huge tokens, thousands of attributes/selectors) at sizes n and 4n in a subprocess: CPU(4n) <= 9*CPU(n)+0.05s. Oracle: no panic (catch_unwind in a build with debug assertions and overflow checks), every call returns (a watchdog reports any execution that does not return within 90 s as a hang), subprocess exits normally within its time limit; non-trivial = distinct inputs on which at least one handler ran or an error was returned";
 
 const CSS: &[&str] = &[
     "a", "*", ".c", "#i", "[k]", "[k=\"v\" i]", ":not(", ")", ":nth-child(", ":nth-of-type(", "2n+1", "-2147483648", "n", " ", ">", ",", ":first-child", "99999999999",
@@ -71,6 +71,14 @@ pub fn replay(case: &Value) -> Option<String> {
             if m.starts_with("panic") { Some(m) } else { None }
         }
         "shape" => shape_check(case["shape"].as_str()?, case["n"].as_u64()? as usize),
+        "hang" => {
+            // re-executes the recorded case; if it hangs again the watchdog reports it
+            let cfg: Cfg = serde_json::from_value(case["cfg"].clone()).ok()?;
+            let chunks: Vec<Vec<u8>> = case["chunks_hex"].as_array()?.iter().map(|c| unhex(c.as_str().unwrap_or(""))).collect();
+            let refs: Vec<&[u8]> = chunks.iter().map(|c| c.as_slice()).collect();
+            let rr = run(&Prepared::new(cfg).ok()?, &refs, true);
+            rr.panicked().map(|m| format!("panic: {m}"))
+        }
         _ => None,
     }
 }
@@ -82,6 +90,8 @@ pub fn replay(case: &Value) -> Option<String> {
 pub const SHAPES: &[&str] = &[
     "nest-noselector", "nest-selector", "nest-nth-of-type", "stray-end-tags", "long-tag-name", "long-comment", "long-attr", "long-text",
     "many-attrs", "many-selectors", "deep-not-selector", "nest-close-all", "many-text-nodes-sjis",
+    "deep-not-selector-after-escaped-dquote", "deep-not-selector-after-escaped-squote", "deep-not-selector-after-escaped-ident", "deep-not-selector-in-list",
+    "many-selectors-distinct",
 ];
 
 fn cpu_seconds() -> f64 {
@@ -107,9 +117,22 @@ pub fn shape_child(shape: &str, n: usize) -> i32 {
             Cfg::with((0..n / 50).map(|i| HSpec { log: false, ..HSpec::obs(HKind::Element, &format!("div.c{i} > span[k{i}]")) }).collect()).strict(false),
             "<div class=c1><span k1></span></div>".repeat(200).into_bytes(),
         ),
-        "deep-not-selector" => {
+        "many-selectors-distinct" => (
+            Cfg::with((0..(n / 1000).max(70)).map(|i| HSpec { log: false, ..HSpec::obs(HKind::Element, &format!("x{i}")) }).collect()).strict(false),
+            "<x1><x69><x70></x70></x69></x1>".repeat(200).into_bytes(),
+        ),
+        s if s.starts_with("deep-not-selector") => {
             let depth = n / 100;
-            let sel = format!("{}a{}", ":not(".repeat(depth), ")".repeat(depth));
+            // strings, escapes and selector lists in front of the nesting must not defeat the
+            // depth guard of the selector parser
+            let prefix = match s {
+                "deep-not-selector-after-escaped-dquote" => "[title=\"\\\"\"]",
+                "deep-not-selector-after-escaped-squote" => "[title='it\\'s']",
+                "deep-not-selector-after-escaped-ident" => "a\\(b",
+                "deep-not-selector-in-list" => "b, [k=\")\"]",
+                _ => "",
+            };
+            let sel = format!("{prefix}{}a{}", ":not(".repeat(depth), ")".repeat(depth));
             let r = catch_unwind(AssertUnwindSafe(|| sel.parse::<lol_html::Selector>().is_ok()));
             if r.is_err() {
                 println!("PANIC");
@@ -248,6 +271,55 @@ pub fn run_check(ctx: &Ctx) -> i32 {
         sweep("(a) B16<=6 x 7 configs x L0,L1,LB,LE", Space::Bytes { max: 6 });
         sweep("(a) F<=3 x 7 configs x L0,L1,LB,LE", Space::Frags { k, max: 3 });
         sweep("(a) 18 contexts x B16<=4 x 7 configs", Space::CtxBytes { max: 4 });
+    }
+    // (e) long text runs: a valid prefix around the decoder's 1 KiB buffer size, then a tail that is
+    // malformed, incomplete or split by a write boundary, with and without text handlers
+    {
+        let tails: &[&[u8]] = &[b"", &[0xC3], &[0xFF], &[0xC3, 0xA9], &[0xE2, 0x82], &[0x83], &[0x83, 0x41], b"<", &[0xE9], b"</a>"];
+        let lens = [1000usize, 1022, 1023, 1024, 1025, 1026, 2047, 2048, 2049, 3071, 3072, 3073];
+        let posts: &[&[u8]] = &[b"", b"y", b"</a>z"];
+        let mut lcfgs = vec![];
+        for enc in ["UTF-8", "windows-1252", "Shift_JIS", "gb18030"] {
+            lcfgs.push(Prepared::new(Cfg::with(vec![HSpec::obs(HKind::DocText, "")]).strict(false).enc(enc)).unwrap());
+            lcfgs.push(Prepared::new(Cfg::with(vec![HSpec::obs(HKind::Text, "a"), HSpec::obs_end_tag("a")]).strict(false).enc(enc)).unwrap());
+            lcfgs.push(Prepared::new(Cfg::default().enc(enc)).unwrap());
+        }
+        let njobs = tails.len() * lens.len() * posts.len();
+        par_for(njobs, 1, |j| {
+            let tail = tails[j % tails.len()];
+            let len = lens[(j / tails.len()) % lens.len()];
+            let post = posts[j / tails.len() / lens.len()];
+            for lead in [&b"<a>"[..], &b"<a>\xC3\xA9"[..]] {
+                let mut doc = lead.to_vec();
+                doc.extend(std::iter::repeat_n(b'x', len));
+                let tail_at = doc.len();
+                doc.extend_from_slice(tail);
+                doc.extend_from_slice(post);
+                let mut scheds = vec![Sched::whole()];
+                for c in tail_at.saturating_sub(2)..doc.len() {
+                    if c > 0 {
+                        scheds.push(Sched { cuts: vec![c], empty_at: None });
+                    }
+                }
+                scheds.push(Sched { cuts: vec![lead.len(), tail_at], empty_at: None });
+                for p in &lcfgs {
+                    for sc in &scheds {
+                        let (m, calls, nt) = check_bytes(p, &doc, sc);
+                        ctx.exec(calls);
+                        ctx.validated(1);
+                        if nt {
+                            ctx.nontrivial.insert(digest(&(&doc, &sc.cuts)));
+                        }
+                        if let Some(msg) = m {
+                            let case = json!({"kind": "bytes", "cfg": p.cfg, "input_hex": hex(&doc), "input_lossy": format!("<a>x*{len} + tail {:?}", tail), "sched": sc});
+                            let c2 = case.clone();
+                            ctx.violation(msg, case, &|| replay(&c2));
+                        }
+                    }
+                }
+            }
+        });
+        ctx.level_done("(e) text runs of 1000..3073 valid bytes + 10 malformed/incomplete/split tails x 12 configs (4 encodings x {doc text, scoped text, none}) x cuts around the tail");
     }
     // (b) selector strings
     let smax = if quick { 4 } else { 5 };
